@@ -19,12 +19,12 @@ SEMANTIC = '#include "stddef.gdh"\ntable(glyph) c1 = glyphid(3..6); endtable;\nt
 PPERR = '#include "stddef.gdh"\n#include "no_such_file.gdh"\ntable(glyph) c1 = glyphid(3..6); c4 = glyphid(7); endtable;\ntable(sub) c1 > c4; endtable;\n'
 
 FIELDS = ["sameInOut", "gdlOpens", "encodingOk", "tmpOk", "ppOk", "parseOk", "postParseOk", "fontOk", "optsOk",
-          "preCompileOk", "dbgFiles", "dbgXml", "outOpens", "outWrites", "errFileOpens"]
+          "preCompileOk", "dbgFiles", "dbgXml", "outOpens", "outWrites", "errFileOpens", "fsmOk"]
 
 
 def base_scn():
     return dict(sameInOut=0, gdlOpens=1, encodingOk=1, tmpOk=1, ppOk=1, parseOk=1, postParseOk=1, fontOk=1, optsOk=1,
-                preCompileOk=1, dbgFiles=0, dbgXml=0, outOpens=1, outWrites=1, errFileOpens=1)
+                preCompileOk=1, dbgFiles=0, dbgXml=0, outOpens=1, outWrites=1, errFileOpens=1, fsmOk=1)
 
 
 def scenarios():
@@ -84,7 +84,21 @@ def scenarios():
     # the derived output name is the input font itself, reached through a symbolic link: f.ttf -> f_gr.ttf
     add("derived_output_is_the_linked_input", {"sameInOut": 1}, out=None, fontname_link=("f.ttf", "f_gr.ttf"))
     add("semantic_error_dbg", {"preCompileOk": 0, "dbgFiles": 1, "dbgXml": 1}, gdl=SEMANTIC, opts=["-D"])
+    # an error found only after the state machines have been generated (more than 65535 states): no font, destination untouched
+    add("fsm_too_large", {"fsmOk": 0}, gdl=big_fsm_gdl())
+    add("fsm_too_large_dbgxml", {"fsmOk": 0, "dbgXml": 1}, gdl=big_fsm_gdl(), opts=["-d"])
     return S
+
+
+_BIG = []
+
+
+def big_fsm_gdl():
+    if not _BIG:
+        import random
+        import gen
+        _BIG.append(gen.gen_big_fsm_program(random.Random(7), 1600, 60).gdl())
+    return _BIG[0]
 
 
 def sha(path):
